@@ -277,7 +277,12 @@ def run(ctx):
     ev = 0
     for k in range(nstruct):
         # one structure in six is triclinic (P-1 / P1): the only system in which every term of the metric matters
-        st = gs.gen_structure(rng, name=rng.choice(['P-1', 'P-1', 'P1']) if k % 6 == 5 else None)
+        # every eighth structure: several fragments along one twofold axis / mirror plane of a monoclinic or orthorhombic group, so that they
+        # need the same operator and the same lattice translation
+        if k % 8 == 3:
+            st = gs.gen_structure(rng, name=rng.choice([g for g in ('P2', 'C2', 'P2/m', 'C2/c', 'Pnma', 'P21/m') if g in gs.sg.TABLE] or [None]), force_shared=True)
+        else:
+            st = gs.gen_structure(rng, name=rng.choice(['P-1', 'P-1', 'P1']) if k % 6 == 5 else None)
         if k % 10 == 3:
             st = gs.gen_chain(rng)      # a chain bonded to its own lattice translates
         with_q = rng.random() < 0.2
